@@ -1,5 +1,130 @@
-//! C14 — not implemented yet.
+//! C14 — results do not depend on the parallel feature or on the number of threads.
+//!
+//! This binary is the *serial* build. Every case is computed here (serial code paths) and, through a
+//! long-lived child process `c14p` (the same operations compiled with the `parallel` feature, built in the
+//! separate workspace /verif/harness/par), inside rayon pools of 1, 2, 3, 5, 6, 7, 8, 12, 16 and 33
+//! threads. All results must be byte-identical.
+use c14_ops::{digest, ops};
+use std::cell::RefCell;
+use std::io::{BufRead, BufReader, Write};
+use std::process::{Child, ChildStdin, ChildStdout, Command, Stdio};
+use vh_core::engine::{Fail, PropSpec, Rel, Tier};
+
+struct Peer {
+    child: Child,
+    stdin: ChildStdin,
+    stdout: BufReader<ChildStdout>,
+}
+
+thread_local! {
+    static PEER: RefCell<Option<Peer>> = const { RefCell::new(None) };
+}
+
+fn peer_path() -> std::path::PathBuf {
+    if let Ok(p) = std::env::var("C14P_BIN") {
+        return p.into();
+    }
+    let root = std::env::var("VERIF_ROOT").unwrap_or_else(|_| "/verif".into());
+    std::path::Path::new(&root).join("harness/par/target/release/c14p")
+}
+
+fn spawn_peer() -> Result<Peer, String> {
+    let path = peer_path();
+    let mut child = Command::new(&path)
+        .stdin(Stdio::piped())
+        .stdout(Stdio::piped())
+        .stderr(Stdio::null())
+        .spawn()
+        .map_err(|e| format!("cannot start parallel peer {}: {}", path.display(), e))?;
+    let stdin = child.stdin.take().unwrap();
+    let stdout = BufReader::new(child.stdout.take().unwrap());
+    Ok(Peer { child, stdin, stdout })
+}
+
+/// ask the parallel build for the digests of one case under every pool size
+fn ask_peer(op: usize, tape: &[u64]) -> Result<Vec<(usize, String)>, String> {
+    PEER.with(|p| {
+        let mut p = p.borrow_mut();
+        if p.is_none() {
+            *p = Some(spawn_peer()?);
+        }
+        let peer = p.as_mut().unwrap();
+        let mut line = format!("{}", op);
+        for w in tape {
+            line.push_str(&format!(" {:x}", w));
+        }
+        line.push('\n');
+        let io = (|| -> std::io::Result<String> {
+            peer.stdin.write_all(line.as_bytes())?;
+            peer.stdin.flush()?;
+            let mut resp = String::new();
+            peer.stdout.read_line(&mut resp)?;
+            Ok(resp)
+        })();
+        match io {
+            Ok(resp) if !resp.trim().is_empty() => {
+                let mut out = Vec::new();
+                for part in resp.trim().split(' ') {
+                    let (n, d) = part.split_once('=').ok_or_else(|| format!("bad peer response {:?}", resp))?;
+                    out.push((n.parse::<usize>().map_err(|_| format!("bad peer response {:?}", resp))?, d.to_string()));
+                }
+                Ok(out)
+            },
+            other => {
+                let _ = peer.child.kill();
+                let _ = peer.child.wait();
+                *p = None;
+                Err(format!("parallel peer died or answered nothing ({:?})", other.err()))
+            },
+        }
+    })
+}
+
+fn relations(tier: Tier) -> Vec<Rel> {
+    let mut out = Vec::new();
+    for (idx, op) in ops().into_iter().enumerate() {
+        let run = op.run;
+        let name = op.name;
+        let cases = tier.pick(op.cases_quick, op.cases_thorough);
+        out.push(
+            Rel::new(name, cases, op.tape_len, move |t, o| {
+                let raw = t.snapshot();
+                let serial = run(t);
+                o.show(|| serial.desc.clone());
+                o.nt(serial.above_threshold);
+                o.class_if(serial.above_threshold, "above-parallel-threshold");
+                o.class_if(serial.size == 0, "empty-input");
+                let want = digest(&serial.bytes);
+                let want = format!("{:016x}{:016x}:{}", want.0, want.1, want.2);
+                let answers = ask_peer(idx, &raw).map_err(|e| Fail { sig: "peer".into(), msg: e })?;
+                o.evals(answers.len() as u64);
+                for (threads, d) in answers {
+                    o.class_if(serial.size > 0 && threads > serial.size, "threads>input");
+                    o.class_if(serial.size > 0 && serial.size % threads != 0, "threads-do-not-divide-input");
+                    if d != want {
+                        return Err(Fail {
+                            sig: "serial!=parallel".into(),
+                            msg: format!("{}: parallel build with {} threads gives {} but the serial build gives {}", serial.desc, threads, d, want),
+                        });
+                    }
+                }
+                Ok(())
+            })
+            .shrink_iters(200),
+        );
+    }
+    out
+}
+
 fn main() {
-    eprintln!("C14: check not implemented");
-    std::process::exit(2);
+    vh_core::engine::main(PropSpec {
+        id: "C14",
+        rule: "Each case (operation, sizes, data seed) is decoded from a proptest tape; sizes are biased towards the work-splitting thresholds of the parallel code (16-coefficient Horner chunks, 2^7 roots-of-unity recursion, 1024-element chunks, 2^10 butterfly gap, 32-term MSM window switch, 4-pair Miller-loop chunks). The serial build (this binary) computes the canonical serialization of the result; the parallel build (c14p) recomputes it inside rayon pools of 1,2,3,5,6,7,8,12,16,33 threads; all digests must agree. Non-trivial: input size above the operation's parallel threshold; distinct = distinct decoded choice sequences. evaluations counts serial-vs-pool comparisons.",
+        assumptions: &[
+            "work-stealing schedules are sampled (10 pools per case), not enumerated: all parallel code is data-parallel over disjoint chunks with deterministic reductions in a field/group, forbid(unsafe_code) + rayon's API exclude data races, so the result is a function of (input, pool size), which is what is generated",
+            "correctness of the serial results themselves is the subject of C01/C03-C08/C17/C18",
+            "digests: two independent 64-bit hashes + length of the canonical serialization",
+        ],
+        relations,
+    })
 }
